@@ -79,8 +79,8 @@ func init() {
 				n = 80000
 			}
 			return fw.Meta{N: n, Level: "exploration", Chunk: 50, CaseTimeoutS: 120, MinNT: 300,
-				Rule:        "seeded WriteNext programs with arbitrary keys (unsorted, repeated, empty, length-changing around rejected writes, immediate retries of failed keys) x a fault schedule (any call may fail cleanly at the data-append or the index-append step through the tag-guarded writer hook) x 4x4 compression x write buffers {16,37,4096,default}. Model: list of accepted pairs; each call's result class (ordering error / injected error / nil) is compared, after Close the table is read back (Scan+Get) and MetaData (count, nil count, min/max key, index/data/total bytes vs real file sizes) is compared. Non-trivial: >=1 ordering rejection, >=1 injected fault and >=2 accepted pairs; distinct by program hash",
-				MinObs:      map[string]int64{"calls_compared": 30000, "ordering_rejections": 3000, "injected_data_faults": 500, "injected_index_faults": 500, "retries_after_fault": 300, "metadata_checked": 2000, "index_fault_on_nil_value": 20},
+				Rule:        "seeded WriteNext programs with arbitrary keys (unsorted, repeated, empty, length-changing around rejected writes, immediate retries of failed keys) x a fault schedule (any call may fail cleanly at the data-append or the index-append step through the tag-guarded writer hook) x 4x4 compression x write buffers {16,37,4096,default} x key comparator (bytes, or a difference-valued one with the same order). Model: list of accepted pairs; each call's result class (ordering error / injected error / nil) is compared, after Close the table is read back (Scan+Get) and MetaData (count, nil count, min/max key, index/data/total bytes vs real file sizes) is compared. Non-trivial: >=1 ordering rejection, >=1 injected fault and >=2 accepted pairs; distinct by program hash",
+				MinObs:      map[string]int64{"calls_compared": 30000, "ordering_rejections": 3000, "injected_data_faults": 500, "injected_index_faults": 500, "retries_after_fault": 300, "metadata_checked": 2000, "index_fault_on_nil_value": 20, "programs_with_a_difference_valued_comparator": 300},
 				Assumptions: []string{"injected failures are clean (the failing writer is not touched), as in the repository's own failing-writer test double"},
 			}
 		},
@@ -98,12 +98,19 @@ func runC15(c *fw.Case) {
 
 	dataComp, idxComp := r.Intn(4), r.Intn(4)
 	wbuf := gen.Pick(r, 16, 37, 4096, 0)
-	opts := []sstables.WriterOption{sstables.WriteBasePath(c.Dir), sstables.WithKeyComparator(skiplist.BytesComparator{}),
+	// the comparator contract is <0 / 0 / >0: one program in three orders its keys with a comparator that yields the same
+	// order as bytes.Compare but returns differences (memcmp style), not -1/0/+1
+	var keyCmp skiplist.Comparator[[]byte] = skiplist.BytesComparator{}
+	if r.Intn(3) == 0 {
+		keyCmp = memcmpCmp{}
+		c.Obs("programs_with_a_difference_valued_comparator", 1)
+	}
+	opts := []sstables.WriterOption{sstables.WriteBasePath(c.Dir), sstables.WithKeyComparator(keyCmp),
 		sstables.DataCompressionType(dataComp), sstables.IndexCompressionType(idxComp)}
 	if wbuf != 0 {
 		opts = append(opts, sstables.WriteBufferSizeBytes(wbuf))
 	}
-	cfg := fmt.Sprintf("data=%d index=%d wbuf=%d", dataComp, idxComp, wbuf)
+	cfg := fmt.Sprintf("data=%d index=%d wbuf=%d cmp=%T", dataComp, idxComp, wbuf, keyCmp)
 	c.HashAdd(cfg)
 	w, err := sstables.NewSSTableStreamWriter(opts...)
 	if err != nil {
@@ -244,7 +251,7 @@ func runC15(c *fw.Case) {
 		return
 	}
 	// read back
-	rd, err := sstables.NewSSTableReader(sstables.ReadBasePath(c.Dir), sstables.ReadWithKeyComparator(skiplist.BytesComparator{}))
+	rd, err := sstables.NewSSTableReader(sstables.ReadBasePath(c.Dir), sstables.ReadWithKeyComparator(keyCmp))
 	if err != nil {
 		c.Violate("sstable-writer/table-unreadable", "%s: %v\n%v", cfg, err, trace)
 		return
